@@ -40,6 +40,13 @@ def gen(chk):
             # carried across the scriptSig -> scriptPubKey switch: the count is reset
             add(bytes([O("OP_NOP")] * 150), sv=sv, extra="succ=%s " % G.hexs(bytes([O("OP_NOP")] * (n - 150) + [O("OP_1")])))
             add(bytes([O("OP_NOP")] * n), sv=sv, extra="succ=%s " % G.hexs(bytes([O("OP_NOP")] * n)))
+            # ... and again on entering a P2SH redeem script (scriptSig pushes it; the scriptPubKey is the P2SH pattern; flag P2SH)
+            if sv == 0:
+                import hashlib
+                redeem = bytes([O("OP_NOP")] * n + [O("OP_1")])
+                h = hashlib.new("ripemd160", hashlib.sha256(redeem).digest()).digest()
+                spk = bytes([O("OP_HASH160"), 20]) + h + bytes([O("OP_EQUAL")])
+                add(G.push(redeem), sv=sv, fl=G.FLAG("P2SH"), extra="succ=%s " % G.hexs(spk))
         # script size
         for n in (9999, 10000, 10001):
             add(bytes([O("OP_1")] + [O("OP_NOP")] * 0) + G.push(bytes(75)) * ((n - 1) // 76) + bytes([O("OP_1")] * ((n - 1) % 76)), sv=sv, cmds="s")
